@@ -612,3 +612,8 @@ func (x *Exec) FillBuildList(l spec.ListWriter, n *gen.Node) ([]byte, error) {
 	}
 	return l.Build()
 }
+
+// FillOnly writes n's fields into an open message writer without ending it.
+func (x *Exec) FillOnly(m spec.MessageWriter, n *gen.Node) (*gen.Node, error) {
+	return x.fillMessage(m, n)
+}
